@@ -22,6 +22,7 @@ pub fn plan_to_json(p: &Plan) -> Value {
         "track_survivors": p.track_survivors,
         "check_foreign": p.check_foreign,
         "stop_on_finding": p.stop_on_finding,
+        "tail": p.tail,
     })
 }
 
@@ -48,6 +49,7 @@ pub fn plan_from_json(v: &Value) -> Plan {
         check_foreign: v["check_foreign"].as_bool().unwrap_or(false),
         stop_on_finding: v["stop_on_finding"].as_bool().unwrap_or(true),
         trace: false,
+        tail: v["tail"].as_u64(),
     }
 }
 
